@@ -280,8 +280,8 @@ class Hist:
                 elif r < 0.7:
                     del e.fixup[rng.choice(('a', 'b', 'c', 'dd'))]
                 else:
-                    e2 = Entity(vmf, keys={'classname': 'func_instance'}, fixup=[FixupValue(v, 'x', i) for v, i in
-                                (('a', rng.choice((1, 1, 2, 7))), ('b', rng.choice((1, 2, 2))), ('c', rng.choice((1, 3, 99))))])
+                    names = rng.sample(['a', 'b', 'c', 'd', 'e', 'f'], rng.randint(2, 6))
+                    e2 = Entity(vmf, keys={'classname': 'func_instance'}, fixup=[FixupValue(v, 'x', rng.choice((1, 1, 2, 2, 3, 4, 7, 99))) for v in names])
                     vmf.add_ent(e2)
                     e2.fixup['new'] = '1'
                 self.log.append(f'{op} map{mi} ent={e.id}')
